@@ -97,15 +97,23 @@ def load_split(split: str,
       downloads.log(f'Reusing cached file {path!r}')
     else:
       # Convert TFF "1 example per record" to "all client examples per record".
-      with sqlite_federated_data.SQLiteFederatedDataBuilder(path) as builder:
+      # Build and validate under a temporary name and rename, so that an
+      # interrupted conversion never leaves an incomplete file under the final
+      # name (whose existence is all that later calls check).
+      partial_path = path + '.partial'
+      if os.path.exists(partial_path):
+        os.remove(partial_path)
+      with sqlite_federated_data.SQLiteFederatedDataBuilder(
+          partial_path) as builder:
         client_ids_examples = map(
             lambda c: (c[0], c[1].all_examples()),
             sqlite_federated_data.TFFSQLiteClientsIterator(
                 decompressed_path, _parse_tf_examples, split))
         builder.add_many(client_ids_examples)
       # Validate that the final produced SQLite is consistent.
-      downloads.validate_file(path, _FEDJAX_SQLITE_NUM_BYTES[split],
+      downloads.validate_file(partial_path, _FEDJAX_SQLITE_NUM_BYTES[split],
                               _FEDJAX_SQLITE_HEXDIGEST[split])
+      os.rename(partial_path, path)
     return sqlite_federated_data.SQLiteFederatedData.new(path)
   else:
     raise ValueError(f'Unsupported mode={mode!r}')
